@@ -327,10 +327,11 @@ def _arr(name, log):
     return o
 
 
-@rule("C16.index-uniform", props=["C16"], min_instances=16, mutants=[
+@rule("C16.index-uniform", props=["C16"], min_instances=18, mutants=[
     ("a number among array coefficients is indexed like an array", ("multivector", "value if isinstance(value, Number) else value[item] for value in values", "value[item] for value in values")),
     ("a list index is spread over several axes", ("multivector", "    def __getitem__(self, item):\n        if not isinstance(item, tuple):", "    def __getitem__(self, item):\n        if not isinstance(item, (tuple, list)):")),
     ("a list index of an assignment is spread over several axes", ("multivector", "        if not isinstance(indices, tuple):\n            indices = (indices,)", "        if not isinstance(indices, (tuple, list)):\n            indices = (indices,)")),
+    ("a multivector source is handed to one block assignment (F30)", ("multivector", "        if from_mv or isinstance(self.values(), (tuple, list)):", "        if isinstance(self.values(), (tuple, list)):")),
     ("ndarray assignment through an ellipsis", ("multivector", "            self.values()[(slice(None), *indices)] = values", "            self.values()[(..., *indices)] = values")),
     ("getitem indexes only with the first index", ("multivector", "value if isinstance(value, Number) else value[item] for value in values)", "value if isinstance(value, Number) else value[item[0]] for value in values)")),
     ("setitem pairs coefficients in reversed order", ("multivector", "            for self_values, other_value in zip(self.values(), values):", "            for self_values, other_value in zip(self.values(), reversed(values)):")),
@@ -445,6 +446,38 @@ def index_uniform(ctx):
             ctx.violation(c, f"mv[{indices!r}] = array assigns through index {stored.get('idx')!r}; expected (slice(None), "
                              f"*indices) = {(SL,) + want_idx!r}: with more than one trailing axis another slice of every "
                              f"coefficient is overwritten", fn)
+    # ndarray-backed target, MULTIVECTOR source whose coefficients have fewer trailing axes than the addressed block (plain numbers
+    # here): numpy aligns TRAILING axes, so handing the raw coefficient sequence to one block assignment lines the blade axis of the
+    # source up with an element axis of the target (silently, when the sizes happen to agree; ValueError otherwise)
+    for label, indices, want_idx in (("int", 0, (0,)), ("slice", SL, (SL,))):
+        c = f"{M}.__setitem__#ndarray-backed, multivector source:{label}"
+        log, stored = [], {}
+        rows = [_arr(f"ROW{i}", log) for i in range(3)]
+        arr = Obj("ndarray", {"fmt": "ARR", "shape": (3, 4, 5)})
+        arr.methods["__iter__"] = lambda rows=rows: iter(rows)
+        arr.methods["__len__"] = lambda: 3
+        arr.methods["setitem"] = lambda idx, v, stored=stored: stored.update(idx=idx, value=v)
+        mv = mv_obj(alg, (4, 1, 6), arr)
+        src = [Val_("B0"), Val_("B1"), Val_("B2")]
+        other = mv_obj(alg, (4, 1, 6), src)
+        try:
+            out = make_interp(repo).run(f"{M}.__setitem__", [mv, indices, other])
+        except NoValue as exc:
+            raise Unknown(c, str(exc), fn)
+        want = [("set", f"ROW{i}", want_idx, f"B{i}") for i in range(3)]
+        if out[0] == "raise":
+            ctx.violation(c, f"mv[{indices!r}] = other raises {out[1]}", fn)
+        elif not stored and log == want:
+            ctx.ok(c, fn, by="coefficient by coefficient")
+        elif stored and stored.get("value") is src and not log:
+            ctx.violation(c, f"mv[{indices!r}] = other hands the coefficient sequence of `other` (blade axis leading, no trailing axes) to one "
+                             f"block assignment {stored.get('idx')!r} of the (blades, 4, 5) array: numpy aligns trailing axes, so the blade axis "
+                             f"of the source meets an element axis of the target - coefficients land on the wrong entries, or ValueError", fn)
+        elif stored and not log:
+            ctx.ok(c, fn, by="one block assignment of a re-shaped value (not followed)")
+        else:
+            ctx.violation(c, f"mv[{indices!r}] = other performs {log} {stored}, expected coefficient i of other written to index "
+                             f"{want_idx!r} of coefficient i: {want}", fn)
     # assignment from a multivector with other keys must raise
     c = f"{M}.__setitem__#different-keys"
     log = []
